@@ -128,7 +128,6 @@ func runC08(b *runner.Batch) {
 			hs = append(hs, c08Near(b))
 		}
 		b.HitN("double-resize-histories", len(hs))
-		b.HitN("near-double-resize-histories", len(hs))
 	default:
 		k := b.Index - nSingleBatches
 		nDouble := (c08DoubleCount() + c08ChunkT - 1) / c08ChunkT
@@ -155,6 +154,9 @@ func runC08(b *runner.Batch) {
 	for i, h := range hs {
 		if b.NViolations() > 0 {
 			break
+		}
+		if len(h.resizes) == 2 && h.resizes[1].at-h.resizes[0].at <= 2 {
+			b.Hit("near-double-resize-histories")
 		}
 		runC08History(b, h, i == 0 && b.Index < 3)
 	}
@@ -410,7 +412,7 @@ func init() {
 		Rule:        "Histories from the deploy state (count 10): epochs advance by one, every epoch's map is unique (a node named after the epoch joins both lists before tick e and leaves after tick e+2); quick = all 403 single-resize histories (count 0..12 x resize epoch 0..30) + 600 PRNG-chosen two-resize histories + 600 PRNG-chosen 'near' two-resize histories (second resize 0-2 ticks after the first, counts within 3 of the previous count); thorough = all 83 824 two-resize histories + 256 random histories with 5 resizes. After every resize and every later tick a read sweep (snapshot(d) d=0..14, snapshotByEpoch and listNodes for 17 epochs around the window, netmap) is compared with the model's retention windows, and the raw storage is scanned for ring slots / structured lists outside the window. distinct = (old count, new count, epoch, window, outcome) for resizes and (count, windows) for ticks after a resize.",
 		Assumptions: append(tb, "a resize that faults is not judged beyond 'changed nothing' (the statement constrains accepted counts)"),
 		Batches:     c08Batches, Chunk: 1,
-		Floors: []string{"resize-accepted:grow", "resize-accepted:shrink", "resize-accepted:shrink-before-wrap", "shrink-after-wrap", "window-full-after-resize", "resize-refused:same", "legacy-read-inside-window", "structured-read-inside-window", "structured-read-outside-window"},
+		Floors: []string{"resize-accepted:grow", "resize-accepted:shrink", "resize-accepted:shrink-before-wrap", "shrink-after-wrap", "window-full-after-resize", "resize-refused:same", "near-double-resize-histories", "legacy-read-inside-window", "structured-read-inside-window", "structured-read-outside-window"},
 		Run:    runC08,
 		Exhaustive: func(tier string) (bool, string) {
 			if tier == "thorough" {
